@@ -15,6 +15,7 @@ use std::process::Command;
 
 mod gcnodepth;
 mod gcnosafe;
+mod textcost;
 
 const KINDS: [&str; 7] = ["lcov", "jacoco", "gcovtext", "gcovjson", "gcno", "gcda", "gcno2m"];
 
@@ -499,6 +500,7 @@ pub fn run(rep: &mut Report) {
     alloc_findings(rep);
     gcnosafe::run(rep);
     gcnodepth::run(rep);
+    textcost::run(rep);
 }
 
 /// the two recorded allocation findings: a number in the input is an allocation size
@@ -530,6 +532,9 @@ pub fn replay(rep: &mut Report, case: &serde_json::Value) {
     if case["op"].as_str().unwrap_or("").starts_with("gcnosafe.") {
         return gcnosafe::replay(rep, case);
     }
+    if case["op"].as_str().unwrap_or("").starts_with("textcost.") {
+        return textcost::replay(rep, case);
+    }
     let kind: &'static str = match case["kind"].as_str().unwrap_or("") {
         "lcov" => "lcov",
         "jacoco" => "jacoco",
@@ -554,6 +559,9 @@ fn main() {
     if args.len() == 4 && args[1] == "--child" {
         child(&args[2], &args[3]);
         return;
+    }
+    if args.len() == 4 && args[1] == "--textcost-child" {
+        return textcost::child(&args[2], &args[3]);
     }
     corrlib::run_main("C14", run, replay);
 }
